@@ -75,7 +75,11 @@ def run_program(h, prog, warm, rng_seed, order=None, warm_prog=None):
     sess = markers.Session(h)
     for t in warm:
         if isinstance(t, str):
-            sess.parse(t)
+            wr, _ = sess.parse(t)
+            if wr is not None:
+                # reads too: whatever a read remembers process-wide (reported warnings, rendered texts) is remembered before the program runs
+                sess.ask(['eval', str(wr), markers.env_sexp(ENVS[0]), []])
+                sess.ask(['display', str(wr)])
         else:
             k = t[0]
             try:
@@ -95,7 +99,7 @@ def run_program(h, prog, warm, rng_seed, order=None, warm_prog=None):
         disp = sess.ask(['display', str(r)])
         dnf = sess.ask(['dnf', str(r)])
         fl = sess.ask(['flags', str(r)])
-        ev = [dump(c02.eval_all(sess, r, e, ['a'])[1:2]) for e in ENVS]
+        ev = [dump(c02.eval_all(sess, r, e, ['a'])[1:]) for e in ENVS]       # values of all entry points and the warnings each reports
         obs.append({'dump': dump(d), 'display': dump(disp), 'dnf': dump(dnf), 'flags': dump(fl), 'eval': ev})
     n = len(prog)
     rel = {}
@@ -177,6 +181,19 @@ def fixed_program2():
             ('parse', "os_name == 'y'"), ('simpx', 4, [S('a')]), ('not', 0), ('simpx', 6, [S('test')]), ('and', 0, 2), ('simpx', 8, [S('a'), S('test')])]
 
 
+def fixed_program3():
+    """deprecated key spellings (their evaluation reports a warning every time) and parenthesised markers"""
+    return [('parse', "python_version >= '3.8' and os.name == 'posix'"), ('parse', "sys.platform != 'win32' or extra == 'a'"), ('and', 0, 1),
+            ('parse', "(os_name == 'nt' or sys_platform == 'win32') and python_version >= '3.8'"), ('parse', "python_version < '3.8' or (extra == 'cli' and (os_name == 'posix' or os_name == 'nt'))"),
+            ('or', 2, 3), ('parse', "'x86' in platform.machine and python_implementation != 'PyPy'"), ('not', 6), ('and', 4, 6), ('parse', "platform.version >= '#1'")]
+
+
+# texts the parser rejects, most of them inside an open parenthesis: per-thread / per-process parser state must be left as it was found
+REJECTED_WARMUP = [t % i for i in range(40) for t in ("(extra == 'a%d' or os_name == 'x'", "(os_name = 'x%d')", "((python_version >= '3.%d'", "(os_name == 'a%d' and (extra == 'b' or", "os_name == 'x%d' and")]
+DEPRECATED_WARMUP = ["os.name == 'posix'", "'posix' == os.name", "sys.platform != 'win32'", "'x86' in platform.machine", "python_implementation != 'PyPy'", "platform.version >= '#1'",
+                     "platform.python_implementation != 'PyPy'"]
+
+
 # one comparison of every kind: whatever process-wide fact the crate derives from "having seen" a kind of comparison is derived before the program runs
 KINDS_WARMUP = ["extra == 'docs'", "extra != 'docs2'", "'x' in os_name", "'x' not in os_name", "os_name in 'x y'", "os_name not in 'x y'", "os_name == 'q'", "os_name < 'q'",
                 "python_full_version >= '1'", "python_full_version == '1.*'", "python_version in '1 2'", "python_version not in '1 2'", "implementation_version ~= '1.2'",
@@ -252,7 +269,7 @@ def run(ctx):
     # ---- (1) cross-history, fresh processes
     n_prog = 12 if quick else 60
     for p in range(n_prog):
-        prog = fixed_program() if p == 0 else fixed_program2() if p == 1 else (gen_program(ctx.rng, ctx.rng.randint(12, 25)) if p % 3 else family_program(ctx.rng))
+        prog = fixed_program() if p == 0 else fixed_program2() if p == 1 else fixed_program3() if p == 2 else (gen_program(ctx.rng, ctx.rng.randint(12, 25)) if p % 3 else family_program(ctx.rng))
         base, rel0 = run_program(h, prog, [], 7)
         ctx.evaluations += 1
         ctx.nontrivial(('prog', tuple(str(s) for s in prog)))
@@ -264,6 +281,8 @@ def run(ctx):
         variants.append(('the same program with other version spellings first', 'respell', None))
         variants.append(('after one comparison of every kind', list(KINDS_WARMUP), None))
         variants.append(('the same program with deprecated key spellings first', 'alias', None))
+        variants.append(('after 200 rejected marker texts', list(REJECTED_WARMUP), None))
+        variants.append(('after the deprecated-key comparisons were parsed and evaluated alone', list(DEPRECATED_WARMUP), None))
         variants.append(('the same program with simplify_extras for other extras first', 'extras', None))
         for name, warm, order in variants:
             if warm in ('respell', 'alias', 'extras'):
